@@ -141,6 +141,12 @@ def check_op(fn, pv, ins, at=None):
     if pv.prove_at(goal, at or ins):
         tr = pv.trace[-1] if pv.trace else None
         return 'PASS', '%s derived from %s' % (goal[0], [t for t in (tr[3] if tr else [])][:6])
+    if at is not None and ins.op == 'add':
+        # compute-then-check for a sum with a constant: x + c wrapped  <=>  result < c  (for c = 1: result == 0)
+        cb = const_int(b)
+        if cb is not None and 0 < cb < (1 << (bits - 1)):
+            if pv.prove_at(('ule', '#%d' % cb, ins.ref), at) or (cb == 1 and pv.prove_at(('ne', ins.ref, '#0'), at)):
+                return 'PASS', 'the result of %s is checked against wrapping (result >= %d) before it is used' % (describe(fn, ins.ref), cb)
     expr = describe(fn, ins.ref)
     if goal[0] == 'nwsub':
         # a - b wraps when b > a; unconstrained iff no fact relates them
@@ -350,6 +356,9 @@ def find_sinks(fn, length_fields=(), compare=False, taint=None, skip_alloc=False
                     if oi is not None and oi.op in ARITH:
                         if oi.op == 'sub' and i.pred in ('eq', 'ne'):
                             continue    # a wrapped difference cannot change the outcome of an (in)equality test against a bound
+                        if oi.op == 'add' and i.pred in ('eq', 'ne') and const_int(oi.o[1]) is not None and \
+                                any(const_int(x) == 0 for x in i.o):
+                            continue    # `x + c == 0` is the test for the wrap itself (compute-then-check)
                         sinks.append((i, o, 'operand of the branch condition at line %d' % i.line))
     return sinks
 
